@@ -36,6 +36,8 @@ func checkC03(p *load.Program, r *kit.Report) {
 		reach := staticReach(p.Func(R, "BitcoinNode.handleHeadersVerify"), p.Func(H, "Repository.VerifyHeader"), p.Func(R, "BitcoinNode.accept"), p.Func(R, "BitcoinNode.Stop"))
 		checkNoReacquire(p, r, "NO-REACQUIRE", func(f *ssa.Function) bool { return reach[f] })
 	}
+	r.Rule("STOP-ORDER", "BitcoinNode.Stop closes the connection before the outgoing message channel (a refused peer is disconnected even while a sender is parked on the full queue)", 1)
+	checkStopOrder(p, r, "STOP-ORDER")
 	r.Rule("SPLITS-FROZEN", "outside NewRepository no function sorts in place or stores into a slice that may share the backing array of repo.splits (the field's value, a re-slice of it, or append(repo.splits, …))", 3)
 	checkSplitsFrozen(p, r, "SPLITS-FROZEN")
 	r.Assume("Repository.disableSplitProtection is false in production (discharged by WRITERS)")
